@@ -1190,6 +1190,12 @@ macro_rules! deserialize_numeric_key {
         where
             V: de::Visitor<'de>,
         {
+            // the number must start right after the quote: `" 1"` is not a numeric key
+            match self.de.parser.read.peek() {
+                Some(b'0'..=b'9' | b'-') => {}
+                _ => return Err(self.de.parser.error(ErrorCode::ExpectedNumericKey)),
+            }
+
             let value = tri!(self.de.deserialize_number(visitor));
             if self.de.parser.read.next() != Some(b'"') {
                 return Err(self.de.parser.error(ErrorCode::ExpectedQuote));
